@@ -1899,7 +1899,7 @@ class ClassReference(TypedField):
         return self._ty
 
     def serialize(self, value):
-        serializer = getattr(self._ty, "serialize", None)
+        serializer = getattr(value.__class__, "serialize", None)
         return serializer(value)
 
 
